@@ -529,7 +529,9 @@ impl Kernel {
             return None;
         }
         self.stats.steps += 1;
-        if self.stats.steps > self.max_steps {
+        // (a run whose nodes exchange more than 256 MB is a runaway -- messages that grow every round -- and is
+        //  cut like a run that exceeds its step budget, before it exhausts the machine's memory)
+        if self.stats.steps > self.max_steps || self.net.inter_node_bytes > (256 << 20) {
             self.truncated = true;
             self.finished = true;
             return None;
